@@ -75,7 +75,8 @@ COMMON_SMALL = [S(["a"]), S(["b 1"], [S(["c"]), S(["d 1"], [S(["e"])])]), S(["EM
 
 def slots_for(vname, tier=None):
     tier = tier or rt.TIER
-    if vname == "huawei" and tier == "quick":
+    if vname == "huawei":
+        # the Huawei-specific blocks multiply the space: the smaller common part in both tiers
         return COMMON_SMALL + SPECIAL["huawei"]
     return COMMON + SPECIAL.get(vname, [])
 
